@@ -90,6 +90,7 @@ package redisemu
 //@ requires bucketCount == uint32(1)<<uint(kk)
 //@ ensures place: result == reverse32(uint32(fullHash))>>uint(32-kk)
 //@ ensures range: result < bucketCount
+//@ ensures [C04] slot: int(result) == dslot(fullHash, int(bucketCount))
 
 // L2: cursor -> bucket index -> cursor round trip for every table size
 //@ lemma scanCursorRoundTrip(c uint32)
